@@ -392,7 +392,12 @@ impl<'a> Gen<'a> {
         let nj = if depth > 0 { self.rng.pick_weighted(&[6, 3, 1]) } else { 0 };
         for _ in 0..nj {
             let (f, rel) = self.from_element(depth.saturating_sub(1));
-            let mut kinds = vec![JoinKind::Inner, JoinKind::Left, JoinKind::Join, JoinKind::Cross];
+            // the API gives every join an ON clause; Postgres has no `CROSS JOIN .. ON` (listed finding,
+            // pinned probe in C08), so cross joins are generated for MySQL and SQLite only
+            let mut kinds = vec![JoinKind::Inner, JoinKind::Left, JoinKind::Join];
+            if self.cfg.is(Dialect::Mysql) || self.cfg.is(Dialect::Sqlite) {
+                kinds.push(JoinKind::Cross);
+            }
             if !self.cfg.is(Dialect::Mysql) && self.cfg.dialect.is_some() {
                 kinds.push(JoinKind::Full);
             }
@@ -401,7 +406,7 @@ impl<'a> Gen<'a> {
             }
             let kind = *self.rng.pick(&kinds);
             let mut on = vec![];
-            if kind != JoinKind::Cross {
+            {
                 // equality between an int column of the new relation and one of the scope
                 let l = self.col_of(&scope, Some(K::I)).unwrap();
                 let r = self.col_of(std::slice::from_ref(&rel), Some(K::I)).unwrap();
